@@ -621,6 +621,9 @@ fn mutations_in_children(tier: Tier, secs: u64) -> (Tally, Vec<Viol>, bool, usiz
 
 // ------------------------------------------------------------------ (c) closure over datagram sequences
 
+/// which extensions of the reduced closure alphabet the thorough tier uses (bit mask, see closure_alphabet)
+const THOROUGH_CLOSURE_EXT: u32 = 1;
+
 #[derive(Clone)]
 enum CEv {
     Datagram(Vec<u8>),
@@ -632,8 +635,28 @@ enum CEv {
 
 fn closure_alphabet(tier: Tier) -> Vec<(String, CEv)> {
     let mut out: Vec<(String, CEv)> = vec![("tick".into(), CEv::Tick), ("advance-11s-tick".into(), CEv::AdvanceTick)];
-    let ids: Vec<Id> = tier.pick(vec![known_id(), unknown_id()], vec![known_id(), unknown_id(), receiver_id()]);
-    let gcs: Vec<u64> = tier.pick(vec![0, 3], vec![0, 3, u64::MAX]);
+    // extensions of the reduced alphabet (thorough tier; CCMC_CLOSURE_ALPHA overrides for experiments)
+    let ext: u32 = std::env::var("CCMC_CLOSURE_ALPHA").ok().and_then(|x| x.parse().ok()).unwrap_or(tier.pick(0, THOROUGH_CLOSURE_EXT));
+    let mut ids: Vec<Id> = vec![known_id(), unknown_id()];
+    if ext & 1 != 0 {
+        ids.push(receiver_id());
+    }
+    let mut gcs: Vec<u64> = vec![0, 3];
+    if ext & 2 != 0 {
+        gcs.push(u64::MAX);
+    }
+    let mut versions: Vec<u64> = vec![1, 2, 5];
+    if ext & 4 != 0 {
+        versions.push(u64::MAX);
+    }
+    let mut setmaxes: Vec<u64> = vec![0, 5];
+    if ext & 8 != 0 {
+        setmaxes.push(u64::MAX);
+    }
+    let mut hbs: Vec<u64> = vec![1, u64::MAX];
+    if ext & 16 != 0 {
+        hbs.push(u64::MAX - 1);
+    }
     let mut headers = vec![];
     for id in &ids {
         for gc in &gcs {
@@ -643,12 +666,12 @@ fn closure_alphabet(tier: Tier) -> Vec<(String, CEv)> {
         }
     }
     let mut tails: Vec<Option<Op>> = vec![None];
-    for version in tier.pick(vec![1u64, 2, 5], vec![1u64, 2, 5, u64::MAX]) {
+    for version in versions.clone() {
         for status in [0u8, 1] {
             tails.push(Some(Op::Kv { key: "a".into(), value: "h".into(), version, status }));
         }
     }
-    for m in tier.pick(vec![0u64, 5], vec![0u64, 5, u64::MAX]) {
+    for m in setmaxes.clone() {
         tails.push(Some(Op::SetMax(m)));
     }
     for h in &headers {
@@ -662,7 +685,7 @@ fn closure_alphabet(tier: Tier) -> Vec<(String, CEv)> {
     }
     // hostile digests, single entry
     for id in [receiver_id(), known_id(), unknown_id()] {
-        for hb in tier.pick(vec![1u64, u64::MAX], vec![1u64, u64::MAX - 1, u64::MAX]) {
+        for hb in hbs.clone() {
             for (gc, mv) in [(0u64, 0u64), (3, 1)] {
                 let e = DigestEntry { id: id.clone(), heartbeat: hb, gc, mv };
                 let name = format!("{}:hb={},gc={},mv={}", id.node_id, hb, gc, mv);
